@@ -1151,11 +1151,18 @@ class quantized_linear(base_quantizer.BaseQuantizer):
       alpha = "'" + self.alpha + "'"
       flags.append("alpha=" + alpha)
     elif self.alpha is not None:
-      alpha = np.array(alpha)
+      alpha = np.array(self.alpha)
       flags.append("alpha=" + str(alpha))
     if self.use_stochastic_rounding:
       flags.append("use_stochastic_rounding=" +
                    str(int(self.use_stochastic_rounding)))
+    if self.scale_axis is not None:
+      flags.append("scale_axis=" + str(self.scale_axis))
+    qnoise_factor = (
+        self.qnoise_factor.numpy() if isinstance(
+            self.qnoise_factor, tf.Variable) else self.qnoise_factor)
+    if qnoise_factor != 1.0:
+      flags.append("qnoise_factor=" + str(float(qnoise_factor)))
     return "quantized_linear(" + ",".join(flags) + ")"
 
   def _set_trainable_parameter(self):
